@@ -129,6 +129,12 @@ pub struct Workload {
     pub setup: Setup,
     pub values: Vec<V>,
     pub threads: Vec<Vec<TOp>>,
+    /// additional shared trees given as source text (parsed before the run; indices continue
+    /// after `trees`)
+    pub extra_tree_sources: Vec<String>,
+    /// compute the sequential baseline on an independently built copy of the shared objects, so
+    /// that the objects under test are used concurrently for the very first time
+    pub fresh: bool,
 }
 
 impl Workload {
@@ -142,6 +148,8 @@ impl Workload {
             .with("scripts", Json::Arr(self.scripts.iter().map(|t| t.to_json()).collect()))
             .with("setup", self.setup.to_json())
             .with("values", Json::Arr(self.values.iter().map(value_to_json).collect()))
+            .with("extra_tree_sources", Json::arr_of_str(self.extra_tree_sources.iter().cloned()))
+            .with("fresh", Json::Bool(self.fresh))
             .with(
                 "threads",
                 Json::Arr(
@@ -181,6 +189,12 @@ impl Workload {
             setup: Setup::from_json(j.field("setup")?)?,
             values,
             threads,
+            extra_tree_sources: j
+                .get("extra_tree_sources")
+                .and_then(|a| a.as_arr())
+                .map(|a| a.iter().filter_map(|s| s.as_str()).map(|s| s.to_string()).collect())
+                .unwrap_or_default(),
+            fresh: j.get("fresh").and_then(|b| b.as_bool()).unwrap_or(false),
         })
     }
 
@@ -234,6 +248,9 @@ pub fn build_shared(w: &Workload) -> Result<Shared, String> {
         } else {
             trees.push(build_operator_tree::<DefaultNumericTypes>(&t.render()).map_err(|e| format!("{:?}", e))?);
         }
+    }
+    for src in &w.extra_tree_sources {
+        trees.push(build_operator_tree::<DefaultNumericTypes>(src).map_err(|e| format!("{:?}", e))?);
     }
     let scripts: Vec<Node> = w.scripts.iter().map(|s| s.assemble(true)).collect();
     let errors = vec![
@@ -465,8 +482,13 @@ pub struct RunOutcome {
 /// One complete simulation of a workload under a scheduler configuration.
 pub fn run(w: &Workload, cfg: sched::SimConfig) -> Result<RunOutcome, String> {
     let sh = Arc::new(build_shared(w)?);
+    let expected = if w.fresh {
+        let reference = build_shared(w)?;
+        sequential(w, &reference)
+    } else {
+        sequential(w, &sh)
+    };
     let before = shared_fingerprint(&sh);
-    let expected = sequential(w, &sh);
     let n = w.threads.len();
     let results: Vec<std::sync::Mutex<Vec<String>>> = (0..n).map(|_| std::sync::Mutex::new(Vec::new())).collect();
     let results = Arc::new(results);
@@ -573,25 +595,125 @@ fn gen_tree(rng: &mut Rng, setup: &Setup, deep: bool, with_assign: bool) -> Expr
     g.program()
 }
 
-/// Scenario for the Miri engine: the same kind of workload, small enough for an interpreter, run
-/// with plain `std::thread` (no hook installed, Miri's own seeded scheduler preempts anywhere).
-/// Returns the process exit code.
-pub fn miri_scenario(seed: u64) -> i32 {
+/// Hand-built workload families for the Miri engine (cheap to construct under an interpreter,
+/// dense in the operations where unsynchronised shared state would matter).
+pub fn miri_workload(seed: u64) -> Workload {
     let mut rng = Rng::new(seed);
-    let mut w = gen_workload_sized(&mut rng, true);
-    w.threads.truncate(3);
-    for t in w.threads.iter_mut() {
-        t.truncate(3);
+    let family = seed % 4;
+    let setup = Setup {
+        vars: vec![
+            ("a".to_string(), Value::Int(3)),
+            ("b".to_string(), Value::Int(8)),
+            ("c".to_string(), Value::String("xyz".into())),
+        ],
+        fns: FN_NAMES.iter().map(|s| s.to_string()).collect(),
+        builtins_disabled: false,
+    };
+    let mut w = Workload {
+        trees: vec![],
+        assembled: vec![],
+        sources: vec![],
+        scripts: vec![],
+        setup,
+        values: vec![Value::Int(1)],
+        threads: vec![],
+        extra_tree_sources: vec![],
+        fresh: true,
+    };
+    let n_threads = rng.range(2, 3);
+    match family {
+        0 => {
+            // generator-based small workload
+            let mut g = gen_workload_sized(&mut rng, true);
+            g.threads.truncate(3);
+            for t in g.threads.iter_mut() {
+                t.truncate(3);
+            }
+            return g;
+        },
+        1 => {
+            // builtin-dense: several distinct builtins resolved by all threads at the same time,
+            // against a shared HashMapContext and the shared EmptyContextWithBuiltinFunctions
+            w.extra_tree_sources = vec![
+                "min(a, b) * 100 + max(a, b)".to_string(),
+                "len(c) + math::abs(0 - a) + floor(2.5) + round(2.4) + ceil(0.1)".to_string(),
+                "typeof(str::from(a)) + str::to_uppercase(c) + str::trim(\" q \")".to_string(),
+                "min(3, 8) * 100 + max(3, 8) + len(\"ab\") + if(true, 1, 2)".to_string(),
+            ];
+            for t in 0..n_threads {
+                let mut ops = Vec::new();
+                for k in 0..4 {
+                    let tree = (t + k) % 4;
+                    let ctx = if tree == 3 && rng.percent(50) { CtxSel::EmptyBuiltins } else { CtxSel::Main };
+                    ops.push(TOp::EvalTree { tree, ctx, entry: 0 });
+                }
+                w.threads.push(ops);
+            }
+        },
+        2 => {
+            // first concurrent use of fresh trees with constant sub-expressions; parse + evaluate
+            w.extra_tree_sources = vec![
+                "(1 + 2) * (3 + 4) + a".to_string(),
+                "(\"x\" + \"y\") + c + (\"p\" + \"q\")".to_string(),
+                "f(g(h(1)), k(2), (2 * 3, 4 + 5)) ".to_string(),
+            ];
+            w.sources = vec!["(1 + 2) * (3 + 4) + a".to_string(), "a + b * 2 - len(c)".to_string()];
+            for t in 0..n_threads {
+                let mut ops = vec![TOp::EvalTree { tree: 0, ctx: CtxSel::Main, entry: 0 }];
+                ops.push(TOp::EvalTree { tree: 1 + (t % 2), ctx: CtxSel::Main, entry: 0 });
+                ops.push(if t % 2 == 0 { TOp::EvalStr { src: 0, ctx: CtxSel::Main } } else { TOp::Iter { tree: 2 } });
+                ops.push(TOp::EvalTree { tree: 0, ctx: CtxSel::NoBuiltins, entry: 1 });
+                w.threads.push(ops);
+            }
+        },
+        _ => {
+            // contexts: clones mutated privately while others read the shared original
+            w.extra_tree_sources = vec!["a + b".to_string(), "len(c) + a".to_string()];
+            w.scripts = vec![
+                Expr::Assign(crate::c15::AOP_ASSIGN, "a".to_string(), Box::new(Expr::Lit(Value::Int(5)))),
+                Expr::Assign(crate::c15::AOP_ADD, "b".to_string(), Box::new(Expr::Read("a".to_string()))),
+                Expr::Read("b".to_string()),
+            ];
+            for t in 0..n_threads {
+                let mut ops = Vec::new();
+                if t % 2 == 0 {
+                    ops.push(TOp::PrivateScript { programs: vec![0, 1, 2] });
+                    ops.push(TOp::EvalTree { tree: 0, ctx: CtxSel::Main, entry: 1 });
+                    ops.push(TOp::FreshScript { programs: vec![0, 2] });
+                } else {
+                    ops.push(TOp::EvalTree { tree: 0, ctx: CtxSel::Main, entry: 0 });
+                    ops.push(TOp::EvalTree { tree: 1, ctx: CtxSel::Main, entry: 0 });
+                    ops.push(TOp::Render { tree: 0 });
+                    ops.push(TOp::CloneRename { tree: 0 });
+                }
+                w.threads.push(ops);
+            }
+        },
     }
-    let sh = match build_shared(&w) {
-        Ok(s) => Arc::new(s),
+    w
+}
+
+pub const AOP_ASSIGN: verifsim::prog::AOp = verifsim::prog::AOp::Assign;
+pub const AOP_ADD: verifsim::prog::AOp = verifsim::prog::AOp::Add;
+
+/// Scenario for the Miri engine: plain `std::thread`, no hook installed; Miri's own seeded
+/// scheduler preempts at basic-block granularity and owns std locks and atomics. The sequential
+/// baseline is computed on an independently built copy, so the shared objects meet their first
+/// use concurrently. Returns the process exit code.
+pub fn miri_scenario(seed: u64) -> i32 {
+    let w = miri_workload(seed);
+    let reference = match build_shared(&w) {
+        Ok(s) => s,
         Err(e) => {
             println!("miri-scenario: workload does not build: {}", e);
             return 0;
         },
     };
-    let before = shared_fingerprint(&sh);
-    let expected = sequential(&w, &sh);
+    let expected = sequential(&w, &reference);
+    let sh = match build_shared(&w) {
+        Ok(s) => Arc::new(s),
+        Err(_) => return 0,
+    };
     let mut results: Vec<Vec<String>> = Vec::new();
     std::thread::scope(|scope| {
         let mut handles = Vec::new();
@@ -607,19 +729,55 @@ pub fn miri_scenario(seed: u64) -> i32 {
         for k in 0..expected[t].len() {
             if results[t].get(k) != Some(&expected[t][k]) {
                 println!(
-                    "VIOLATION property=C15 class=concurrent!=sequential engine=miri workload_seed={} thread={} op={} expected={} actual={:?}",
-                    seed, t, k, expected[t][k], results[t].get(k)
+                    "VIOLATION property=C15 class=concurrent!=sequential engine=miri workload_seed={} family={} thread={} op={} operation={} expected={} actual={:?}",
+                    seed, seed % 4, t, k, w.threads[t][k].to_json().to_compact(), expected[t][k], results[t].get(k)
                 );
                 return 1;
             }
         }
     }
-    if shared_fingerprint(&sh) != before {
+    // shared objects unchanged (kept cheap: this runs under an interpreter): trees by `==`
+    // against the independently built reference copy, contexts by their sorted snapshots
+    if sh.trees != reference.trees
+        || snapshot(&sh.ctx_main) != snapshot(&reference.ctx_main)
+        || snapshot(&sh.ctx_nobuiltins) != snapshot(&reference.ctx_nobuiltins)
+    {
         println!("VIOLATION property=C15 class=shared-object-changed engine=miri workload_seed={}", seed);
         return 1;
     }
-    println!("miri-scenario: ok workload_seed={} threads={} ops={}", seed, w.threads.len(), w.threads.iter().map(|t| t.len()).sum::<usize>());
+    if seed % 4 == 2 {
+        // nothing was poisoned by the first, concurrent use
+        let again = sequential(&w, &sh);
+        if again != expected {
+            println!("VIOLATION property=C15 class=sequential-after-concurrent-differs engine=miri workload_seed={}", seed);
+            return 1;
+        }
+    }
+    println!(
+        "miri-scenario: ok workload_seed={} family={} threads={} ops={}",
+        seed,
+        seed % 4,
+        w.threads.len(),
+        w.threads.iter().map(|t| t.len()).sum::<usize>()
+    );
     0
+}
+
+fn gen_very_deep_tree(rng: &mut Rng, setup: &Setup) -> Expr {
+    let depth = rng.range(150, 320);
+    let cfg = GenCfg {
+        budget: depth * 5 / 2 + rng.range(5, 30),
+        max_depth: depth,
+        well_typed_pct: 100,
+        fail_leaf_pct: 0,
+        builtins: false,
+        spiny: true,
+        max_statements: 1,
+        assign_pct: 0,
+        nested_statements: false,
+    };
+    let mut g = Gen::new(rng, cfg, setup);
+    g.program()
 }
 
 pub fn gen_workload(rng: &mut Rng) -> Workload {
@@ -630,12 +788,20 @@ pub fn gen_workload_sized(rng: &mut Rng, small: bool) -> Workload {
     let mut setup = gen_setup(rng);
     setup.fns = FN_NAMES.iter().map(|s| s.to_string()).collect();
     let n_trees = if small { 2 } else { rng.range(3, 6) };
+    // swarm: a few runs use very deep trees and many threads (state that sums over all
+    // evaluations in flight, e.g. a process-wide depth budget, needs depth x threads to show)
+    let very_deep = !small && rng.percent(10);
+    let many_threads = !small && rng.percent(10);
     let mut trees = Vec::new();
     let mut assembled = Vec::new();
     for i in 0..n_trees {
         let deep = !small && (i == 0 || rng.percent(30));
         let with_assign = rng.percent(20);
-        trees.push(gen_tree(rng, &setup, deep, with_assign));
+        if very_deep && i == 0 {
+            trees.push(gen_very_deep_tree(rng, &setup));
+        } else {
+            trees.push(gen_tree(rng, &setup, deep, with_assign));
+        }
         assembled.push(rng.percent(50));
     }
     let mut sources = Vec::new();
@@ -657,7 +823,7 @@ pub fn gen_workload_sized(rng: &mut Rng, small: bool) -> Workload {
         scripts.push(gen_tree(rng, &setup, deep, true));
     }
     let values: Vec<V> = (0..rng.range(1, 4)).map(|_| any_value(rng)).collect();
-    let n_threads = rng.range(2, 4);
+    let n_threads = if many_threads { rng.range(5, 8) } else { rng.range(2, 4) };
     let mut threads = Vec::new();
     for _ in 0..n_threads {
         let n_ops = rng.range(2, 6);
@@ -674,7 +840,7 @@ pub fn gen_workload_sized(rng: &mut Rng, small: bool) -> Workload {
             };
             let op = match rng.below(20) {
                 0..=8 => TOp::EvalTree {
-                    tree: rng.usize_below(n_trees),
+                    tree: if very_deep && rng.percent(70) { 0 } else { rng.usize_below(n_trees) },
                     ctx,
                     entry: if rng.percent(60) { 0 } else { rng.usize_below(TYPED_ENTRIES.len()) },
                 },
@@ -699,6 +865,8 @@ pub fn gen_workload_sized(rng: &mut Rng, small: bool) -> Workload {
         setup,
         values,
         threads,
+        extra_tree_sources: Vec::new(),
+        fresh: rng.percent(50),
     }
 }
 
